@@ -615,8 +615,9 @@ def monitor_dead_safe(ctx: Ctx):
 def wait_timeout(ctx: Ctx):
     """The coordinator polls: runner.wait() is called with a finite positive timeout (dead worker processes are
     only noticed at the start of a poll, so an unbounded wait never notices a killed last task)."""
-    for cl in roles.consumer_loops(ctx):
-        call = cl.loop.iter
+    from types import SimpleNamespace
+    for (wfn, call) in [(wf, c) for cl0 in roles.consumer_loops(ctx) for (wf, c) in cl0.wait_calls]:
+        cl = SimpleNamespace(fn=wfn)
         t = kwarg(call, 'timeout_seconds', 0)
         g = ctx.cfg(cl.fn)
         def values_of(x: ast.AST, f, depth: int = 0) -> list:
